@@ -1,0 +1,13 @@
+//go:build verif
+// +build verif
+
+package generator
+
+import "io"
+
+// ExecuteBodyForVerif exposes executeBody to the verification harness under
+// /verif (built only with -tags verif): it lets a check drive the body hooks
+// of a generator over a writer that fails at a chosen write.
+func (c *Context) ExecuteBodyForVerif(w io.Writer, g Generator) error {
+	return c.executeBody(w, g)
+}
